@@ -110,6 +110,26 @@ def runs_of(mask):
     return out
 
 
+def edit_in_place(I, kind, blk, n, how):
+    """how = "blank": frame 0 of the first item becomes wholly missing;
+    how = "fill": it becomes present with fresh symbolic values.  The item's own arrays are
+    written through (element assignment), as a user filling or cutting a gap would do."""
+    t = tracks_of(kind, blk)[0]
+    comps = all_components(I, kind, t, n)
+    news = []
+    for k, a in enumerate(comps):
+        if how == "blank":
+            a[0] = float("nan")
+        else:
+            v = I.farray(f"edit.c{k}", tuple(a[0].shape))
+            B.assume_no_nan(I, v)
+            if k == 0:
+                I.assume(I.not_(B.isinf_list(I, v)[0]))
+            a[0] = v
+            news.append(v)
+    return news
+
+
 def case(kind: str, sh: dict, pid: str):
     def h(I):
         B.ALLOW_INF[0] = bool(sh.get("allow_inf"))
@@ -119,130 +139,145 @@ def case(kind: str, sh: dict, pid: str):
 
         blk = B.build(I, kind, sh)
         n = sh.get("n")
-        exc = None
-        try:
-            declared = blk.nBytes
-            bytes1 = B.encode(I, blk)
-        except Exception as e:  # noqa: BLE001
-            exc = e
-        I.observe("encode_exc", type(exc).__name__ if exc else None)
-        if exc is not None:
-            P(pid, "valid_block_encodes", False, f"{type(exc).__name__}: {exc}")
-            return
-        I.observe("bytes1", bytes1)
-        I.observe("nBytes", declared)
-        I.goal("encoded")
 
-        # ---------------- C02: declared size == bytes written ------------------------
-        P("C02", "nBytes_eq_written", declared == len(bytes1), f"declared={declared} written={len(bytes1)}")
-        if pid == "C02" and kind in ("data3d", "emg", "force3d", "fpdata", "fpcal", "calib", "optical", "events", "data2d"):
-            items = []
-            if kind in ("data3d", "emg", "force3d"):
-                items = list(blk)
-            elif kind == "fpdata":
-                items = list(blk.platforms)
-            elif kind == "fpcal":
-                items = [p for _, p in blk.platforms]
-            elif kind == "calib":
-                items = list(blk.cam_data)
-            elif kind == "optical":
-                items = list(blk)
-            elif kind == "events":
-                items = list(blk)
-            elif kind == "data2d":
-                items = [blk._data]
-            tot = 0
-            for it in items:
-                f = I.BytesIO()
-                if kind == "fpdata":
-                    it._write(f, blk.format)
-                else:
-                    it._write(f)
-                w = len(f.getvalue())
-                P("C02", "item_nBytes_eq_written", it.nBytes == w, f"item declared={it.nBytes} written={w}")
-                tot += w
-            P("C02", "items_fit_in_block", tot <= len(bytes1))
+        def run_round(sfx):
+            """encode -> decode -> encode with every obligation of the property (labels carry sfx)"""
+            def P(p, label, cond, note=""):
+                if p == pid:
+                    I.prove(f"{p}.{kind}.{label}{sfx}", cond, note)
 
-        # ---------------- decode ---------------------------------------------------------
-        try:
-            blk2, pos = B.decode(I, kind, bytes1, blk.format.value, SENTINEL)
-            dexc = None
-        except Exception as e:  # noqa: BLE001
-            dexc = e
-        I.observe("decode_exc", type(dexc).__name__ if dexc else None)
-        if dexc is not None:
-            P(pid, "own_encoding_decodes", False, f"{type(dexc).__name__}: {dexc}")
-            return
-        P("C02", "decode_consumes_exactly_nBytes", pos == declared, f"pos={pos} declared={declared}")
-        P("C02", "decoded_nBytes_same", blk2.nBytes == declared)
+            exc = None
+            try:
+                declared = blk.nBytes
+                bytes1 = B.encode(I, blk)
+            except Exception as e:  # noqa: BLE001
+                exc = e
+            I.observe("encode_exc", type(exc).__name__ if exc else None)
+            if exc is not None:
+                P(pid, "valid_block_encodes", False, f"{type(exc).__name__}: {exc}")
+                return
+            I.observe("bytes1", bytes1)
+            I.observe("nBytes", declared)
+            I.goal("encoded")
 
-        f1 = B.fields(I, kind, blk)
-        f2 = B.fields(I, kind, blk2)
-        B.observe_fields(I, "decoded", f2)
-        if pid == "C01":
-            B.compare_fields(I, lambda lab, c: P("C01", "field" + lab, c), "", f1, f2)
-        try:
-            bytes2 = B.encode(I, blk2)
-            e2 = None
-        except Exception as e:  # noqa: BLE001
-            e2 = e
-        I.observe("bytes2", bytes2 if e2 is None else type(e2).__name__)
-        if e2 is not None:
-            P(pid, "decoded_block_encodes", False, f"{type(e2).__name__}: {e2}")
-            return
-        P("C01", "reencode_identical", bytes2 == bytes1)
-        P("C02", "reencode_same_length", len(bytes2) == len(bytes1))
-
-        # ---------------- C05: gaps -------------------------------------------------------
-        if pid == "C05" and kind in ("data3d", "emg", "force3d", "fpdata"):
-            head, lab, comps = track_layout(kind, blk)
-            p = head
-            ts = tracks_of(kind, blk)
-            ts2 = tracks_of(kind, blk2)
-            # second, independent decode of the same bytes (fresh uninitialised memory)
-            blk3, _ = B.decode(I, kind, bytes1, blk.format.value, SENTINEL)
-            ts3 = tracks_of(kind, blk3)
-            any_gap = False
-            for k, t in enumerate(ts):
-                mask = presence_mask(I, kind, t, n)
-                want = runs_of(mask)
-                if not all(mask):
-                    any_gap = True
-                parsed = parse_segments(bytes1, p + lab)
-                P("C05", "segment_table_concrete", parsed is not None)
-                if parsed is None:
-                    return
-                segs, after = parsed
-                I.observe(f"segs{k}", segs)
-                P("C05", "runs_nonempty", all(c > 0 for _, c in segs))
-                P("C05", "runs_inside_range", all(0 <= a and a + c <= n for a, c in segs))
-                P("C05", "runs_increasing_nontouching", all(segs[i][0] + segs[i][1] < segs[i + 1][0] for i in range(len(segs) - 1)))
-                P("C05", "runs_cover_exactly_present", segs == want, f"mask={mask} segs={segs}")
-                p = after + sum(c for _, c in segs) * comps * 4
-                # decoded content
-                c1 = all_components(I, kind, t, n)
-                c2 = all_components(I, kind, ts2[k], n)
-                c3 = all_components(I, kind, ts3[k], n)
-                gap_nan, present_same, stable = [], [], []
-                for f in range(n):
-                    if not mask[f]:
-                        for a in c2:
-                            gap_nan.extend(B.isnan_list(I, a[f]))
+            # ---------------- C02: declared size == bytes written ------------------------
+            P("C02", "nBytes_eq_written", declared == len(bytes1), f"declared={declared} written={len(bytes1)}")
+            if pid == "C02" and kind in ("data3d", "emg", "force3d", "fpdata", "fpcal", "calib", "optical", "events", "data2d"):
+                items = []
+                if kind in ("data3d", "emg", "force3d"):
+                    items = list(blk)
+                elif kind == "fpdata":
+                    items = list(blk.platforms)
+                elif kind == "fpcal":
+                    items = [p for _, p in blk.platforms]
+                elif kind == "calib":
+                    items = list(blk.cam_data)
+                elif kind == "optical":
+                    items = list(blk)
+                elif kind == "events":
+                    items = list(blk)
+                elif kind == "data2d":
+                    items = [blk._data]
+                tot = 0
+                for it in items:
+                    f = I.BytesIO()
+                    if kind == "fpdata":
+                        it._write(f, blk.format)
                     else:
-                        for a, b in zip(c1, c2):
-                            present_same.append(B.tob(I, a[f], "<f4") == B.tob(I, b[f], "<f4"))
-                    for a, b in zip(c2, c3):
-                        stable.append(B.tob(I, a[f], "<f4") == B.tob(I, b[f], "<f4"))
-                P("C05", "gap_frames_decode_to_NaN", I.and_(*gap_nan) if gap_nan else True, f"mask={mask}")
-                P("C05", "present_frames_keep_value", I.and_(*present_same) if present_same else True)
-                P("C05", "every_decode_identical", I.and_(*stable) if stable else True, f"mask={mask}")
-            P("C05", "all_bytes_accounted", p == len(bytes1))
-            if any_gap:
-                I.goal("gap")
-            else:
-                I.goal("nogap")
-    return h
+                        it._write(f)
+                    w = len(f.getvalue())
+                    P("C02", "item_nBytes_eq_written", it.nBytes == w, f"item declared={it.nBytes} written={w}")
+                    tot += w
+                P("C02", "items_fit_in_block", tot <= len(bytes1))
 
+            # ---------------- decode ---------------------------------------------------------
+            try:
+                blk2, pos = B.decode(I, kind, bytes1, blk.format.value, SENTINEL)
+                dexc = None
+            except Exception as e:  # noqa: BLE001
+                dexc = e
+            I.observe("decode_exc", type(dexc).__name__ if dexc else None)
+            if dexc is not None:
+                P(pid, "own_encoding_decodes", False, f"{type(dexc).__name__}: {dexc}")
+                return
+            P("C02", "decode_consumes_exactly_nBytes", pos == declared, f"pos={pos} declared={declared}")
+            P("C02", "decoded_nBytes_same", blk2.nBytes == declared)
+
+            f1 = B.fields(I, kind, blk)
+            f2 = B.fields(I, kind, blk2)
+            B.observe_fields(I, "decoded", f2)
+            if pid == "C01":
+                B.compare_fields(I, lambda lab, c: P("C01", "field" + lab, c), "", f1, f2)
+            try:
+                bytes2 = B.encode(I, blk2)
+                e2 = None
+            except Exception as e:  # noqa: BLE001
+                e2 = e
+            I.observe("bytes2", bytes2 if e2 is None else type(e2).__name__)
+            if e2 is not None:
+                P(pid, "decoded_block_encodes", False, f"{type(e2).__name__}: {e2}")
+                return
+            P("C01", "reencode_identical", bytes2 == bytes1)
+            P("C02", "reencode_same_length", len(bytes2) == len(bytes1))
+
+            # ---------------- C05: gaps -------------------------------------------------------
+            if pid == "C05" and kind in ("data3d", "emg", "force3d", "fpdata"):
+                head, lab, comps = track_layout(kind, blk)
+                p = head
+                ts = tracks_of(kind, blk)
+                ts2 = tracks_of(kind, blk2)
+                # second, independent decode of the same bytes (fresh uninitialised memory)
+                blk3, _ = B.decode(I, kind, bytes1, blk.format.value, SENTINEL)
+                ts3 = tracks_of(kind, blk3)
+                any_gap = False
+                for k, t in enumerate(ts):
+                    mask = presence_mask(I, kind, t, n)
+                    want = runs_of(mask)
+                    if not all(mask):
+                        any_gap = True
+                    parsed = parse_segments(bytes1, p + lab)
+                    P("C05", "segment_table_concrete", parsed is not None)
+                    if parsed is None:
+                        return
+                    segs, after = parsed
+                    I.observe(f"segs{k}", segs)
+                    P("C05", "runs_nonempty", all(c > 0 for _, c in segs))
+                    P("C05", "runs_inside_range", all(0 <= a and a + c <= n for a, c in segs))
+                    P("C05", "runs_increasing_nontouching", all(segs[i][0] + segs[i][1] < segs[i + 1][0] for i in range(len(segs) - 1)))
+                    P("C05", "runs_cover_exactly_present", segs == want, f"mask={mask} segs={segs}")
+                    p = after + sum(c for _, c in segs) * comps * 4
+                    # decoded content
+                    c1 = all_components(I, kind, t, n)
+                    c2 = all_components(I, kind, ts2[k], n)
+                    c3 = all_components(I, kind, ts3[k], n)
+                    gap_nan, present_same, stable = [], [], []
+                    for f in range(n):
+                        if not mask[f]:
+                            for a in c2:
+                                gap_nan.extend(B.isnan_list(I, a[f]))
+                        else:
+                            for a, b in zip(c1, c2):
+                                present_same.append(B.tob(I, a[f], "<f4") == B.tob(I, b[f], "<f4"))
+                        for a, b in zip(c2, c3):
+                            stable.append(B.tob(I, a[f], "<f4") == B.tob(I, b[f], "<f4"))
+                    P("C05", "gap_frames_decode_to_NaN", I.and_(*gap_nan) if gap_nan else True, f"mask={mask}")
+                    P("C05", "present_frames_keep_value", I.and_(*present_same) if present_same else True)
+                    P("C05", "every_decode_identical", I.and_(*stable) if stable else True, f"mask={mask}")
+                P("C05", "all_bytes_accounted", p == len(bytes1))
+                if any_gap:
+                    I.goal("gap")
+                else:
+                    I.goal("nogap")
+
+        run_round("")
+        how = sh.get("edit")
+        if how:
+            # the same objects again after an in-place edit of frame 0 of the first item (no
+            # setter, no new array object): sizes, runs and content must follow the data
+            edit_in_place(I, kind, blk, n, how)
+            I.goal("edited")
+            run_round(".after_in_place_edit")
+    return h
 
 # ---------------------------------------------------------------------------------
 # shape vectors
@@ -270,6 +305,11 @@ def shapes(tier: str, pid: str):
             for n in ([2, 3] if q else [1, 2, 3, 4, 5]):
                 A((kind, {"n": n, key: 1, "lab": 0, "links": 0, "allow_inf": True}))
             A((kind, {"n": 2, key: 2, "lab": 0, "links": 0, "allow_inf": True}))
+            # compute once, edit the gap pattern in place, compute again (stale caches)
+            for how in ("blank", "fill"):
+                for n in ([2, 3] if q else [1, 2, 3, 4]):
+                    A((kind, {"n": n, key: 1, "lab": 0, "links": 0, "edit": how}))
+                A((kind, {"n": 2, key: 2, "lab": 0, "links": 0, "edit": how}))
         return out
     # C01 / C02
     frames = [1, 2, 3] if q else [1, 2, 3, 4, 5, 6]
@@ -281,6 +321,12 @@ def shapes(tier: str, pid: str):
         if not q:
             A((kind, {"n": 3, key: 3, "lab": [1], "links": 0}))
             A((kind, {"n": 8, key: 1, "lab": [1], "links": 0}))
+    for kind, key in (("data3d", "tracks"), ("emg", "signals"), ("force3d", "tracks"), ("fpdata", "plats")):
+        # encode, edit frame 0 of the first item in place, encode again
+        for how in ("blank", "fill"):
+            A((kind, {"n": 3, key: 1, "lab": [1], "links": 0, "edit": how}))
+            if not q:
+                A((kind, {"n": 2, key: 2, "lab": [0, 1], "links": 1, "edit": how}))
     if pid == "C02":
         # sizes must agree also when a deciding component is +-inf (stored as a gap)
         for kind, key in (("data3d", "tracks"), ("emg", "signals"), ("force3d", "tracks"), ("fpdata", "plats")):
@@ -350,6 +396,8 @@ def instances_for(pid: str, tier: str):
         goals = ["encoded"]
         if pid == "C05":
             goals = ["gap", "nogap"]
+        if sh.get("edit"):
+            goals = goals + ["edited"]
         out.append(Instance(_name(kind, sh), case(kind, sh, pid), goals=goals, cost=(2 ** (n * cnt)) if kind in ("data3d", "emg", "force3d", "fpdata") else 1,
                             meta={"kind": kind, "shape": sh}))
     return out
